@@ -15,8 +15,9 @@ def buildRest (variant : Variant) (cfg : Cfg) (mapper : Mapper) (t : Trie V) (le
   if len = 0 then throw .invalidArgument
   if variant == .bytewise && len > u24Max then throw .automatonScale
   let ns := t.flatten
-  let (q, fail) ← buildFails ns (cfg.kind != 0)
-  let (outs, opos) := buildOutputs ns q fail
+  let nfa := buildNfa t (cfg.kind != 0)
+  let (fail, opos) := nfaArrays t nfa
+  let outs := nfa.out.outs
   let states ← match variant with
     | .bytewise => buildBytewise cfg ns fail opos
     | .charwise => buildCharwise cfg mapper ns fail opos
@@ -57,16 +58,12 @@ theorem buildRest_ok (variant : Variant) (cfg : Cfg) (m : Mapper) (t : Trie V) (
       · cases h
       · split at h
         · cases h
-        · split at h
-          · cases h
-          · cases h; exact ⟨rfl, rfl, rfl⟩
+        · cases h; exact ⟨rfl, rfl, rfl⟩
     · split at h
       · cases h
       · split at h
         · cases h
-        · split at h
-          · cases h
-          · cases h; exact ⟨rfl, rfl, rfl⟩
+        · cases h; exact ⟨rfl, rfl, rfl⟩
 
 /-- Success of the pipeline decomposes into: enough free blocks requested, successful insertion
 of all patterns, at least one registered pattern, success of everything after insertion. -/
